@@ -186,12 +186,22 @@ func (c *conn) receive() (err error) {
 		return
 	}
 	if !ok {
+		// an error frame names the call it answers: that call fails with it. The other
+		// pending calls are not concerned (if the server closes the connection after such
+		// a frame they fail with that, not with the text of another call's error).
+		var e error = core.InvalidResponseError{Response: body}
 		if string(body) == core.RequestEntityTooLarge {
-			err = core.ErrRequestEntityTooLarge
-		} else {
-			err = core.InvalidResponseError{Response: body}
+			e = core.ErrRequestEntityTooLarge
 		}
-		return
+		if resultChan, loaded := c.loadAndDelete(index); loaded {
+			resultChan <- data{
+				Index: index,
+				Error: e,
+			}
+			return
+		}
+		// no call is pending under that identifier: the frame can not be attributed
+		return e
 	}
 	if resultChan, loaded := c.loadAndDelete(index); loaded {
 		resultChan <- data{
